@@ -248,6 +248,15 @@ def cases():
                     els[k] = newlp
                     exp_doc = copy.deepcopy(host)
                     add('duplicate data name in loop', hn, doc, 41, newlp, content(exp_doc), window=(render(doc)[1][id(newlp)][0], render(doc)[1][id(newlp)][0] + len(lp[1]) + 2))
+                # the same name twice within the loop header: the second column is dropped
+                doc = copy.deepcopy(host)
+                els = doc[0][2]
+                lp = [e for e in els if e[0] == 'loop'][0]
+                k = els.index(lp)
+                newlp = ('loop', lp[1] + [lp[1][0].upper()], [row + [('dropped', S('dropped'))] for row in lp[2]])
+                els[k] = newlp
+                add('duplicate data name within a loop header', hn, doc, 41, newlp, content(copy.deepcopy(host)),
+                    window=(render(doc)[1][id(newlp)][0], render(doc)[1][id(newlp)][0] + len(lp[1]) + 2))
                 # MISSING_SPACE between two quoted loop values
                 doc = copy.deepcopy(host)
                 els = doc[0][2]
